@@ -211,7 +211,7 @@ def main(argv=None):
             rmeta.append(("wit", r, w))
     robs = run_replay(rjobs, n_proc=args.jobs)
 
-    violations, divergences, inconclusive = [], [], []
+    violations, divergences, inconclusive, unconfirmed = [], [], [], []
     validated = unvalidated = 0
     known_confirmed = {}
     os.makedirs(os.path.join(ROOT, "replays", prop), exist_ok=True)
@@ -220,6 +220,11 @@ def main(argv=None):
             divergences.append(f"replay twin crashed for {r.get('instance', r.get('id'))}: {ro.get('error', '')[-400:]}")
             continue
         agree = same(item["expected"], ro["obs"], numeric=item.get("exact", True))
+        if kind == "viol" and not item.get("exact", True) and not agree:
+            # counterexample on a path that depends on uninterpreted functions (or inexact inputs): the solver's values for
+            # those need not be the real ones, so a non-reproducing model is an artefact of the abstraction, not a divergence
+            unconfirmed.append(f"{r['instance']} [{item['label']}] inputs={item['inputs']}")
+            continue
         if kind == "wit":
             if not item["exact"]:
                 unvalidated += 1
@@ -247,6 +252,8 @@ def main(argv=None):
     for r in results:
         for m in r["inconclusive"]:
             inconclusive.append(f"{r['instance']}: {m}")
+    for u in unconfirmed:
+        inconclusive.append(f"unconfirmed counterexample (abstraction-dependent path, model did not replay): {u}")
 
     for e in known:
         if e.get("property") == prop and e.get("status") == "known" and e["id"] in known_confirmed:
